@@ -5,7 +5,7 @@ CONSTANTS
  r1 = r1
  r2 = r2
  x = x
- Node = {o, o2, r1, x}
+ Node = {o, r1, x}
  Adv = adv
  Flags <- FlagsDef
  Cands <- CandsSmall
@@ -15,11 +15,11 @@ CONSTANTS
  Tries = 2
  NextHop = 4 Unstable = 24 CacheTO = 4 Inactive = 8 RemoveDelay = 2 SweepEvery = 2 PingEvery = 3 MaxTime = 1000
  CreateGuard = TRUE
- MaxCircuits = 2 MaxData = 2 MaxLoss = 0 MaxDup = 0 MaxAdv = 1 MaxNow = 0
- Goals = {1}
- Origins = {o, o2}
- AdvKinds = {"create", "destroy"}
- AdvSrcs = {adv, x}
+ MaxCircuits = 1 MaxData = 0 MaxLoss = 0 MaxDup = 1 MaxAdv = 1 MaxNow = 4
+ Goals = {2}
+ Origins = {o}
+ AdvKinds = {"mangle"}
+ AdvSrcs = {adv}
  TrackWire = FALSE
  UseIds = FALSE
  NodeTeardown = FALSE
@@ -29,10 +29,7 @@ CONSTANTS
  CheckIdent = TRUE
  AutoTimers = TRUE
 INVARIANT TypeOK
-INVARIANT NoShadow
-INVARIANT ExitOnlyOwn
-INVARIANT ReturnIntegrity
-INVARIANT ExitIntegrity
+INVARIANT NoForeignKey
+INVARIANT KeyAgreement
+PROPERTY AnswerMustMatch
 PROPERTY EntriesStable
-PROPERTY DestroyOnlyFromNeighbour
-PROPERTY UnknownCellsInert
